@@ -91,12 +91,16 @@ def _map_labels(
     Returns:
         np.ndarray: Returns a copy of the remapped array
     """
-    k = np.array(list(label_map.keys()), dtype=arr.dtype)
-    v = np.array(list(label_map.values()), dtype=arr.dtype)
+    max_value = (
+        max(int(arr.max()), int(max(label_map.keys())), int(max(label_map.values())))
+        + 1
+    )
+    # widen the dtype if the new labels do not fit into the array's own dtype
+    dtype = np.promote_types(arr.dtype, np.min_scalar_type(max_value))
+    k = np.array(list(label_map.keys()), dtype=dtype)
+    v = np.array(list(label_map.values()), dtype=dtype)
 
-    max_value = max(arr.max(), max(k), max(v)) + 1
-
-    mapping_ar = np.arange(max_value, dtype=arr.dtype)
+    mapping_ar = np.arange(max_value, dtype=dtype)
     mapping_ar[k] = v
     return mapping_ar[arr]
 
